@@ -108,6 +108,7 @@ def alignment_roundtrip(c):
     ext = c.call(dfxp_base._create_external_alignment, a)
     c.ensure("textAlign", ext.get("tts:textAlign") == (EXT_H[h] if h is not None else None))
     c.ensure("displayAlign", ext.get("tts:displayAlign") == (EXT_V[v] if v is not None else None))
+    c.ensure("absent_parts_are_not_written", set(ext) == {k for k, on in (("tts:textAlign", h), ("tts:displayAlign", v)) if on is not None})
     back = c.call(dfxp_base._create_internal_alignment, ext.get("tts:textAlign"), ext.get("tts:displayAlign"))
     if h is None and v is None:
         c.ensure("nothing_in_nothing_out", back is None)
@@ -174,6 +175,18 @@ def rand_layout(rng, need_origin=False):
     return L if L else None
 
 
+def noisy(L):
+    """the same layout up to float noise far below the two decimals that are written (30.3 vs 10.1 + 20.2): another
+    object, not equal to the first, that must come back with the same printed values"""
+    if L is None:
+        return None
+    ns = lambda z: Size(z.value + 1e-9, z.unit)
+    return Layout(origin=Point(ns(L.origin.x), ns(L.origin.y)) if L.origin else None,
+                  extent=Stretch(ns(L.extent.horizontal), ns(L.extent.vertical)) if L.extent else None,
+                  padding=Padding(ns(L.padding.before), ns(L.padding.after), ns(L.padding.start), ns(L.padding.end))
+                  if L.padding else None, alignment=L.alignment)
+
+
 def with_defaults(L):
     """what a DFXP reader must see: absent alignment parts take start / after"""
     if L is None:
@@ -231,6 +244,8 @@ def bounded_dfxp_roundtrip(ctx, b):
         caps, expect = [], []
         for j in range(rng.choice([1, 2, 3])):
             cap_l = rand_layout(rng) if rng.random() < 0.5 else None
+            if caps and caps[-1].layout_info is not None and rng.random() < 0.3:
+                cap_l = noisy(caps[-1].layout_info)
             nodes = []
             for k in range(rng.choice([1, 2])):
                 # a node-level layout is carried by a span: start-style, text, end-style nodes
@@ -429,16 +444,21 @@ def convert_caption_layouts(c):
     c.ensure("cue_blocks_with_the_captions_times_separated_by_a_blank_line", r == "\n".join(blocks))
 
 
+def prove_alignment(ctx):
+    """(shared with C07: an attribute that is written has a value)"""
+    ctx.prove("dfxp.alignment", alignment_roundtrip,
+              functions=[dfxp_base._create_external_alignment, dfxp_base._create_external_horizontal_alignment,
+                         dfxp_base._create_external_vertical_alignment, dfxp_base._create_internal_alignment,
+                         Alignment.from_horizontal_and_vertical_align])
+
+
 def run(ctx):
     P = ctx.prove
     P("webvtt.WebVTTWriter._convert_caption/layouts", convert_caption_layouts, functions=[W._convert_caption], crosscheck=False)
     P("webvtt.WebVTTWriter._convert_positioning", webvtt_settings, functions=[W._convert_positioning],
       contracts={"pycaption.geometry:Size.__str__": _size_str})
     P("webvtt.WebVTTWriter._convert_positioning/verbatim", webvtt_verbatim, functions=[W._convert_positioning])
-    P("dfxp.alignment", alignment_roundtrip,
-      functions=[dfxp_base._create_external_alignment, dfxp_base._create_external_horizontal_alignment,
-                 dfxp_base._create_external_vertical_alignment, dfxp_base._create_internal_alignment,
-                 Alignment.from_horizontal_and_vertical_align])
+    prove_alignment(ctx)
     P("dfxp._convert_layout_to_attributes", layout_attributes, functions=[dfxp_base._convert_layout_to_attributes],
       contracts={"pycaption.geometry:Size.__str__": _size_str})
     # nodes with different layouts become separate cues: every text node's text lies in a cue group that carries the
